@@ -110,6 +110,7 @@ type World struct {
 	mEvCache      []ext.MEvent
 	mEvCacheH     uint64
 	FaultsStoppedAt int64
+	Settled       bool
 	pend          map[string][2]uint64
 	preEndBal     map[string]sdk.Int
 	booting       bool
